@@ -44,6 +44,30 @@ def unmap_collect(f):
     return f
 
 
+def unfind_rev(f):
+    """R5/R6: `let NAME = (LO..=HI).rev().find(|&K| BODY).unwrap_or(D);` -> descending while loop assigning NAME (BODY kept verbatim)"""
+    m = re.search(r'let (\w+) = \((\w+)\.\.=(\w+)\)\s*\.rev\(\)\s*\.find\(\|&(\w+)\|\s*', f.body)
+    if not m:
+        return f
+    j = m.end()
+    if f.body[j] == '{':
+        close = match_brace(f.body, j)
+        pred = f.body[j:close + 1]
+        rest = f.body[close + 1:]
+    else:
+        close = f.body.index(')', j)
+        pred = '{ ' + f.body[j:close] + ' }'
+        rest = f.body[close:]
+    m2 = re.match(r'\s*\)\s*\.unwrap_or\((\w+)\);', rest)
+    if not m2:
+        return f
+    name, lo, hi, kv, dflt = m.group(1), m.group(2), m.group(3), m.group(4), m2.group(1)
+    new = f'let mut {name} = {dflt}usize; let mut {kv} = {hi}; while {kv} >= {lo} {{ let c_ = {pred}; if c_ {{ {name} = {kv}; break; }} {kv} = {kv} - 1; }}'
+    f.body = f.body[:m.start()] + new + rest[m2.end():]
+    f.rewrites.append(('R5', '`(LO..=HI).rev().find(|&k| BODY).unwrap_or(D)` -> descending while loop (BODY kept verbatim)', ''))
+    return f
+
+
 def hoist_closure(f, name):
     """R6: `let NAME = |params| { BODY };` removed from the function and returned as (params, BODY)"""
     m = re.search(r'let ' + name + r' = \|([^|]*)\|\s*\{', f.body)
@@ -178,8 +202,10 @@ def build():
     cs.rewrite_re('R5', r'(best_k = k;\s*break;\s*\})\s*\}', r'\1 k = k - 1; }')
     cs.rewrite_re('R5', r'for j in 1\.\.k \{', 'let mut j = 1usize; while j < k {')
     cs.rewrite_re('R5', r'(contiguous = false;\s*break;\s*\})\s*\}', r'\1 j = j + 1; }')
+    unfind_rev(cs)
     cs.rewrite_re('R11', r'Self::horner_ops_share_b_idx\(', 'horner_ops_share_b_idx(')
     cs.rewrite_re('R6', r'&chain\[i\.\.i \+ k\]', 'chain, i, k')
+    cs.rewrite_re('R6', r'&chain\[(\w+)\.\.(\w+)\]', r'chain, \1, \2 - \1')
     return stage2(u, cs, fr, A, IMPL)
 
 
@@ -374,13 +400,13 @@ def stage5(u, cs, CTX):
     cs.loop('while k >= 2', invariants=[
         ('ctx', 'chain@.len() <= nn && nn < 0x1_0000_0000 && pre == preprocessed@ && plw == NPREP && i < chain@.len() && k <= k_try && k_try <= chain@.len() - i && k_try <= pack_k && run_ok(pre, chain@) && nn == n_ops(pre)'),
     ], invariant_except_break=[('none_yet', 'best_k == 1')],
-       ensures=[('found', 'best_k == 1 || (2 <= best_k <= k_try && (forall|p: int| i < p < i + best_k ==> (#[trigger] chain@[p]) == chain@[i as int] + (p - i)) '
+       ensures=[('found_window_shares_b', 'best_k == 1 || (2 <= best_k <= k_try '
                           '&& (forall|p: int| i <= p < i + best_k ==> b_of(pre, (#[trigger] chain@[p]) as int) == b_of(pre, chain@[i as int] as int)))')],
        decreases='k')
-    cs.loop('while j < k', invariants=[
-        ('ctx', 'chain@.len() <= nn && 1 <= j <= k && k <= chain@.len() - i && i < chain@.len() && run_ok(pre, chain@) && nn == n_ops(pre) && nn < 0x1_0000_0000'),
-        ('prefix', 'contiguous ==> forall|p: int| i < p < i + j ==> (#[trigger] chain@[p]) == chain@[i as int] + (p - i)'),
-    ], ensures=[('all', 'contiguous ==> forall|p: int| i < p < i + k ==> (#[trigger] chain@[p]) == chain@[i as int] + (p - i)')], decreases='k - j')
+    if 'while j < k' in cs.body:
+        cs.loop('while j < k', invariants=[
+            ('ctx', 'chain@.len() <= nn && 1 <= j <= k && k <= chain@.len() - i && i < chain@.len() && run_ok(pre, chain@) && nn == n_ops(pre) && nn < 0x1_0000_0000'),
+        ], ensures=[('none', 'true')], decreases='k - j')
     # ---- the push of one Horner entry
     cs.before('if best_k >= 2 { schedule.push(ScheduleEntry::PackedHorner(chain[i], best_k));', """let ghost s_p = schedule@; let ghost i0 = i as int;
                 let ghost e_new = if best_k >= 2 { ScheduleEntry::PackedHorner(chain@[i0], best_k) } else { ScheduleEntry::Op(chain@[i0]) };
